@@ -43,7 +43,9 @@ DEFAULT_TRUE = {"trim_doctest_flags", "returns_multiple_items", "returns_named_v
 
 # pools whose str() through Griffe's expression builder is the text itself (checked once per process by the property module)
 TYPES = ("int", "str", "bool", "float", "bytes", "list[int]", "dict[str, int]", "tuple[int, str]", "int | None", "Foo", "mod.Bar",
-         "Optional[int]", "Callable[[int], str]", "set[str]", "type[Foo]")  # fmt: skip
+         "Optional[int]", "Callable[[int], str]", "set[str]", "type[Foo]",
+         # annotations that contain parentheses themselves (the Google `name (type): text` syntax wraps them in another pair)
+         "tuple[()]", "Annotated[int, Field(gt=0)]", "Callable[..., tuple[()]]")  # fmt: skip
 DEFAULTS = ("0", "1", "None", "True", "'x'", "[]", "1.5", "-1", "(1, 2)", "{}", "Foo()", "mod.CONST", "...")
 EXCEPTIONS = ("ValueError", "KeyError", "TypeError", "mod.CustomError", "OSError", "RuntimeError")
 WARNINGS = ("UserWarning", "DeprecationWarning", "mod.CustomWarning", "RuntimeWarning")
